@@ -9,7 +9,7 @@ from harness.impl import tree as I
 
 IMPORTS = "From Ford Require Import Base.Str Sem.Tree Corr.C01."
 CASE_T = "str * list stmt * (ent + nat) * option ent"
-THEOREMS = []
+THEOREMS = ["C01_tree_roundtrip", "C01_decl_consumed"]
 
 
 def impl_term(res):
